@@ -257,13 +257,18 @@ def date_groups(ctx):
             # a Date and a DateHour side by side, each into its own type
             doc = obj([fld("d", dv), fld("h", hv)])
             out.append(G("date" if inside else "date-below-5000", doc, struct_of([("d", "", "date"), ("h", "", "dh")]), "equal" if inside else "any", enc))
-            # every binary form of the same Date / DateHour at another position
-            b2, bq2 = forms[(k + 1) % 3]
-            inside2 = y >= -5000 or b2 != "I32"
-            doc, shape = embed(k, vdate(y, m, d, 0, b2, bq2, q, not pad), "date")
-            out.append(G("date" if inside2 else "date-below-5000", doc, shape, "equal" if inside2 else "any", enc))
-            doc, shape = embed(k + 3, vdate(y, m, d, h, b2, bq2, q, not pad), "dh")
-            out.append(G("datehour" if inside2 else "date-below-5000", doc, shape, "equal" if inside2 else "any", enc))
+            # every binary form (I32, quoted, unquoted string token) of the same Date / DateHour, each at some position
+            for fi, (b2, bq2) in enumerate(forms):
+                inside2 = y >= -5000 or b2 != "I32"
+                doc, shape = embed(k + fi, vdate(y, m, d, 0, b2, bq2, q, (pad + fi) % 2 == 1), "date")
+                out.append(G("date" if inside2 else "date-below-5000", doc, shape, "equal" if inside2 else "any", enc))
+                doc, shape = embed(k + fi + 3, vdate(y, m, d, h, b2, bq2, q, (pad + fi) % 2 == 0), "dh")
+                out.append(G("datehour" if inside2 else "date-below-5000", doc, shape, "equal" if inside2 else "any", enc))
+            if (m, d) in ((1, 1), (12, 31)):
+                # first and last instant of the year: hours 1 and 24 as I32
+                for hh in (1, 24):
+                    doc, shape = embed(k + hh, vdate(y, m, d, hh, "I32", True, False, False), "dh")
+                    out.append(G("datehour" if y >= -5000 else "date-below-5000", doc, shape, "equal" if y >= -5000 else "any", enc))
             if (m, d) == (11, 11):
                 # the wrong date type for the value: a DateHour into Date (text refuses the hour, binary I32 drops it), a Date into
                 # DateHour (text refuses, binary I32 reads hour 1): outside the shared subset, counted
